@@ -41,6 +41,66 @@ def lean_bool(b: bool) -> str:
     return "true" if b else "false"
 
 
+class _Renamer(ast.NodeTransformer):
+    def __init__(self, table):
+        self.table = table
+
+    def visit_Name(self, node):
+        if node.id in self.table:
+            return ast.copy_location(ast.Name(id=self.table[node.id], ctx=node.ctx), node)
+        return node
+
+    def visit_ExceptHandler(self, node):
+        self.generic_visit(node)
+        if node.name in self.table:
+            node.name = self.table[node.name]
+        return node
+
+    def visit_arg(self, node):
+        if node.arg in self.table:
+            node.arg = self.table[node.arg]
+        return node
+
+
+def normalise_locals(fn: ast.FunctionDef) -> ast.FunctionDef:
+    """a copy of `fn` whose local variables (everything bound inside the body: assignment / for / with /
+    except / lambda targets — not the parameters) are renamed L0, L1, … in order of first binding, so that
+    the recognised shapes do not depend on how a local is spelled"""
+    import copy
+    fn = copy.deepcopy(fn)
+    params = {a.arg for a in fn.args.args + fn.args.kwonlyargs}
+    order: List[str] = []
+
+    def bind(name):
+        if name not in params and name not in order:
+            order.append(name)
+
+    for node in ast.walk(fn):
+        if isinstance(node, ast.Name) and isinstance(node.ctx, ast.Store):
+            bind(node.id)
+        elif isinstance(node, ast.ExceptHandler) and node.name:
+            bind(node.name)
+        elif isinstance(node, ast.Lambda):
+            for a in node.args.args:
+                bind(a.arg)
+    # ast.walk is breadth-first: order by source position instead
+    pos = {}
+    for node in ast.walk(fn):
+        nm = None
+        if isinstance(node, ast.Name) and isinstance(node.ctx, ast.Store):
+            nm = node.id
+        elif isinstance(node, ast.ExceptHandler) and node.name:
+            nm = node.name
+        elif isinstance(node, ast.arg) and node.arg in order:
+            nm = node.arg
+        if nm in order:
+            key = (getattr(node, "lineno", 0), getattr(node, "col_offset", 0))
+            pos[nm] = min(pos.get(nm, key), key)
+    order.sort(key=lambda n: pos.get(n, (10**9, 0)))
+    table = {n: f"L{i}" for i, n in enumerate(order)}
+    return _Renamer(table).visit(fn)
+
+
 def tr_referent_value(ev: ast.Module) -> str:
     cls = find_class(ev, "Referent")
     getter = None
@@ -112,35 +172,45 @@ def tr_load_values(ev: ast.Module) -> str:
 
 def tr_find_name(ev: ast.Module) -> str:
     cls = find_class(ev, "NameContainer")
-    fn = find_func(cls.body, "find_name")
+    fn = normalise_locals(find_func(cls.body, "find_name"))
+    p = fn.args.args[1].arg
     b = body_of(fn)
-    src = [ast.unparse(s) for s in b]
     steps = []
+    head = tail = sub = None
     for s in b:
         u = ast.unparse(s)
-        if isinstance(s, ast.If) and ast.unparse(s.test) == "not path":
-            need("referent.value = self" in u and "return referent" in u, "find_name: empty path returns this container")
+        if isinstance(s, ast.If) and ast.unparse(s.test) == f"not {p}":
+            inner = [ast.unparse(x) for x in s.body]
+            need(len(inner) == 3 and inner[0].endswith("= Referent()") and inner[1].endswith(".value = self")
+                 and inner[2].startswith("return "), "find_name: empty path returns this container")
             steps.append("empty-path")
-        elif u == "head, *tail = path":
+        elif isinstance(s, ast.Assign) and isinstance(s.targets[0], ast.Tuple) and ast.unparse(s.value) == p:
+            elts = s.targets[0].elts
+            need(len(elts) == 2 and isinstance(elts[1], ast.Starred), "find_name: head, *tail = path")
+            head, tail = elts[0].id, elts[1].value.id
             steps.append("split")
         elif isinstance(s, ast.Try):
-            need(ast.unparse(s.body[0]) == "sub_context = self[head]" and exc_names(s.handlers[0].type) == ["KeyError"]
-                 and "raise NameContainer.NotFound(path)" in u, "find_name: missing head raises NotFound")
+            need(len(s.body) == 1 and isinstance(s.body[0], ast.Assign) and ast.unparse(s.body[0].value) == f"self[{head}]"
+                 and exc_names(s.handlers[0].type) == ["KeyError"] and f"raise NameContainer.NotFound({p})" in u,
+                 "find_name: missing head raises NotFound")
+            sub = s.body[0].targets[0].id
             steps.append("lookup-head")
-        elif isinstance(s, ast.If) and ast.unparse(s.test) == "not tail":
-            need(ast.unparse(s.body[-1]) == "return sub_context", "find_name: end of path returns the referent")
+        elif isinstance(s, ast.If) and ast.unparse(s.test) == f"not {tail}":
+            need(ast.unparse(s.body[-1]) == f"return {sub}", "find_name: end of path returns the referent")
             steps.append("end-of-path")
-        elif isinstance(s, ast.AnnAssign):
+        elif isinstance(s, ast.AnnAssign) and s.value is None:
             continue
-        elif isinstance(s, ast.If) and ast.unparse(s.test) == "sub_context.container":
-            need(ast.unparse(s.body[-1]) == "return sub_context.container.find_name(tail)", "find_name: container recursion")
+        elif isinstance(s, ast.If) and ast.unparse(s.test) == f"{sub}.container":
+            need(ast.unparse(s.body[-1]) == f"return {sub}.container.find_name({tail})", "find_name: container recursion")
             steps.append("container")
             need(len(s.orelse) == 1 and isinstance(s.orelse[0], ast.If), "find_name: elif mapping value")
             e = s.orelse[0]
             t = ast.unparse(e.test)
-            need(t.startswith("sub_context._value_set and isinstance(sub_context.value,") and "MapType" in t and "dict" in t,
+            need(t.startswith(f"{sub}._value_set and isinstance({sub}.value,") and "MapType" in t and "dict" in t,
                  "find_name: mapping-value test")
-            need("NameContainer.dict_find_name(" in ast.unparse(e) and "return item" in ast.unparse(e), "find_name: dict_find_name branch")
+            eb = [ast.unparse(x) for x in e.body]
+            need(len(eb) == 2 and f"NameContainer.dict_find_name(cast(Dict[str, Referent], {sub}.value), {tail})" in eb[0]
+                 and eb[1] == "return " + eb[0].split(" = ")[0], "find_name: dict_find_name branch")
             steps.append("mapping-value")
             need(len(e.orelse) == 1 and isinstance(e.orelse[0], ast.Raise) and "TypeError" in ast.unparse(e.orelse[0]),
                  "find_name: otherwise TypeError")
@@ -149,27 +219,32 @@ def tr_find_name(ev: ast.Module) -> str:
             raise TranslationError(f"find_name: unexpected statement {u[:60]}")
     out = ["def findNameSteps : List String := " + lean_list([lean_str(s) for s in steps])]
     # dict_find_name: key lookup, KeyError -> NotFound, end of path wraps the value
-    df = find_func(cls.body, "dict_find_name")
+    df = normalise_locals(find_func(cls.body, "dict_find_name"))
+    d, dp = df.args.args[0].arg, df.args.args[1].arg
     u = ast.unparse(df)
-    ok = ("head, *tail = path" in u and "[head], tail)" in u and "except KeyError" in u
-          and "raise NameContainer.NotFound(path)" in u and "referent.value = cast(celpy.celtypes.MapType, some_dict)" in u)
+    ok = (f"L0, *L1 = {dp}" in u and f"return NameContainer.dict_find_name(cast(Dict[str, Referent], {d})[L0], L1)" in u
+          and "except KeyError" in u and f"raise NameContainer.NotFound({dp})" in u
+          and f".value = cast(celpy.celtypes.MapType, {d})" in u)
     out.append(f"def dictFindNavigatesKeys : Bool := {lean_bool(ok)}")
     return "\n".join(out) + "\n"
 
 
 def tr_resolve_name(ev: ast.Module) -> str:
     cls = find_class(ev, "NameContainer")
-    fn = find_func(cls.body, "resolve_name")
+    fn = normalise_locals(find_func(cls.body, "resolve_name"))
+    pkg, name = fn.args.args[1].arg, fn.args.args[2].arg
     u = ast.unparse(fn)
     b = body_of(fn)
+    # locals in order of first binding: L0 target, L1 matches, L2 container of the chain, L3 candidate path,
+    # L4 referent found, L5/L6 the pair chosen by max, L7 the lambda's parameter
     facts = {
-        "packageFirst": "target = self.ident_pat.findall(package) + ['']" in u and "target = ['']" in u,
-        "shrinksFromTheEnd": "while not matches and target:" in u and "target = target[:-1]" in u,
-        "walksParentChain": "for nc in self.parent_iter():" in u,
-        "looksUpTargetPlusName": "package_ident: List[str] = target + [name]" in u and "nc.find_name(package_ident)" in u,
-        "keyErrorWhenNoMatch": any(isinstance(s, ast.If) and ast.unparse(s.test) == "not matches" and len(s.body) == 1
-                                   and ast.unparse(s.body[0]) == "raise KeyError(name)" for s in b),
-        "longestMatch": "max(matches, key=lambda path_value: len(path_value[0]))" in u and "return best_match" in u,
+        "packageFirst": f"L0 = self.ident_pat.findall({pkg}) + ['']" in u and "L0 = ['']" in u,
+        "shrinksFromTheEnd": "while not L1 and L0:" in u and "L0 = L0[:-1]" in u,
+        "walksParentChain": "for L2 in self.parent_iter():" in u,
+        "looksUpTargetPlusName": f"L3: List[str] = L0 + [{name}]" in u and "L4 = L2.find_name(L3)" in u and "L1.append((L3, L4))" in u,
+        "keyErrorWhenNoMatch": any(isinstance(s, ast.If) and ast.unparse(s.test) == "not L1" and len(s.body) == 1
+                                   and ast.unparse(s.body[0]) == f"raise KeyError({name})" for s in b),
+        "longestMatch": "L5, L6 = max(L1, key=lambda L7: len(L7[0]))" in u and "return L6" in u,
     }
     skipped = []
     for node in ast.walk(fn):
